@@ -34,6 +34,7 @@ pub struct Profile {
     pub p_outer_kinds: f64,
     pub p_modulo: f64,
     pub p_key_via_agg: f64,
+    pub p_fn_exprs: f64,
     pub p_unsupported_agg: f64,
     /// Probability of an aggregation over an aggregation grouped by the inner aggregate
     /// (`SELECT t.c, count(*) FROM (SELECT count(*) AS c FROM base GROUP BY key) AS t GROUP BY t.c`).
@@ -64,6 +65,7 @@ impl Profile {
             p_outer_kinds: 0.0,
             p_modulo: 0.03,
             p_key_via_agg: 0.04,
+            p_fn_exprs: 0.1,
             p_unsupported_agg: 0.0,
             p_nested_group: 0.0,
             p_multi_dp: 0.0,
@@ -1066,6 +1068,102 @@ pub fn generate(seed: u64, run: u64, prop: &str) -> Generated {
         }
     }
     let mut query = QuerySpec { from, where_, keys, aggs, having, outer: if cte.is_some() { None } else { outer }, plain: None, cte, raw_sql: None, holders_override: None };
+    // scalar functions around aggregated columns and value-set keys (own stream): every function
+    // has its own typing rule, and the DP path turns propagated types into clamp bounds and
+    // public key values
+    let mut rfe = Rng::stream(seed, run, "fn_exprs");
+    if rfe.chance(profile.p_fn_exprs) && query.cte.is_none() {
+        let spec_of = |e: &str| -> Option<ColSpec> { cols.iter().find(|(q, _)| q == e).map(|(_, c)| c.clone()) };
+        let mut used = vec![];
+        for a in query.aggs.iter_mut() {
+            if !matches!(a.f, AggFn::Sum | AggFn::Avg) || a.distinct || !rfe.chance(0.6) {
+                continue;
+            }
+            let Some(c) = spec_of(&a.arg) else { continue };
+            let (lo, hi, is_int) = match &c.ty {
+                ColType::IntRange { lo, hi } => (*lo as f64, *hi as f64, true),
+                ColType::FloatRange { lo, hi } => (*lo, *hi, false),
+                ColType::IntValues(v) => (*v.iter().min().unwrap() as f64, *v.iter().max().unwrap() as f64, true),
+                _ => continue,
+            };
+            let mid = if is_int { ((lo + hi) / 2.0).floor() } else { ((lo + hi) / 2.0 * 8.0).round() / 8.0 };
+            let q = a.arg.clone();
+            let m = lo.abs().max(hi.abs());
+            let lit = |x: f64| if is_int { format!("{}", x as i64) } else { format!("{:?}", x) };
+            let (expr, scale, name) = match rfe.below(10) {
+                0 => (format!("abs({})", q), m, "abs"),
+                1 => (format!("-{}", q), m, "neg"),
+                2 => (format!("{} * {}", q, q), m * m, "square"),
+                3 if c.optional => (format!("coalesce({}, {})", q, lit(mid)), m, "coalesce"),
+                4 => (format!("least({}, {})", q, lit(mid)), m, "least"),
+                5 => (format!("greatest({}, {})", q, lit(mid)), m, "greatest"),
+                6 if !is_int => (format!("floor({})", q), m + 1.0, "floor"),
+                7 if !is_int => (format!("ceil({})", q), m + 1.0, "ceil"),
+                8 if is_int => (format!("cast({} AS float)", q), m, "cast_float"),
+                9 if !is_int => (format!("{} / 2", q), m, "half"),
+                _ => continue,
+            };
+            a.arg = expr;
+            a.scale = scale.max(1.0);
+            used.push(name);
+        }
+        for k in query.keys.iter_mut() {
+            if k.group_expr.is_some() || k.select_agg.is_some() || k.nullable || !rfe.chance(0.5) {
+                continue;
+            }
+            let Some(c) = spec_of(&k.expr) else { continue };
+            let q = k.expr.clone();
+            match (&c.ty, k.public_set.clone()) {
+                (ColType::TextValues(_), Some(set)) => {
+                    let (expr, f): (String, Box<dyn Fn(&str) -> String>) = match rfe.below(3) {
+                        0 => (format!("upper({})", q), Box::new(|t: &str| t.to_uppercase())),
+                        1 => (format!("lower({})", q), Box::new(|t: &str| t.to_lowercase())),
+                        _ => (format!("{} || '_'", q), Box::new(|t: &str| format!("{}_", t))),
+                    };
+                    let mut out: Vec<Cell> = vec![];
+                    for v in set.iter() {
+                        if let Cell::Text(t) = v {
+                            let n = Cell::Text(f(t));
+                            if !out.iter().any(|o| o.key() == n.key()) {
+                                out.push(n);
+                            }
+                        }
+                    }
+                    k.expr = expr;
+                    k.public_set = Some(out);
+                    k.ambiguous = true;
+                    used.push("text_key_fn");
+                }
+                (ColType::IntValues(_), Some(set)) => {
+                    let (expr, f): (String, Box<dyn Fn(i64) -> i64>) = match rfe.below(4) {
+                        0 => (format!("abs({})", q), Box::new(|x: i64| x.abs())),
+                        1 => (format!("{} + 1", q), Box::new(|x: i64| x + 1)),
+                        2 => (format!("{} / 2", q), Box::new(|x: i64| x / 2)),
+                        _ => (format!("-{}", q), Box::new(|x: i64| -x)),
+                    };
+                    let mut out: Vec<Cell> = vec![];
+                    for v in set.iter() {
+                        if let Cell::Int(i) = v {
+                            let n = Cell::Int(f(*i));
+                            if !out.iter().any(|o| o.key() == n.key()) {
+                                out.push(n);
+                            }
+                        }
+                    }
+                    k.expr = expr;
+                    k.public_set = Some(out);
+                    k.ambiguous = true;
+                    used.push("int_key_fn");
+                }
+                _ => {}
+            }
+        }
+        if !used.is_empty() {
+            used.sort();
+            used.dedup();
+            tags.push(format!("fn:{}", used.join("+")));
+        }
+    }
     // one of several keys output through MAX / MIN of itself instead of a plain projection (own
     // stream): same values, another path through the compiler's re-projection of the keys
     let mut rka = Rng::stream(seed, run, "key_via_agg");
